@@ -102,13 +102,14 @@ Fixpoint chunk_for (chunks : list (Z * Z)) (o : Z) : option (Z * Z) :=
   | (co, cz) :: t => if (co <=? o) && (o <? co + cz) then Some (co, cz) else chunk_for t o
   end.
 
-(* the loop of cacheWithReader over one file: for nr < size { c := ChunkEntryForOffset(nr); nr += c.size; cache c } *)
+(* the loop of cacheWithReader over one file: for nr < size { c := ChunkEntryForOffset(nr); nr = c.offset + c.size; cache c }
+   (chunk_for only ever returns the chunk containing nr; a chunk that does not is an error in the code: hostile layers, C04) *)
 Fixpoint cache_walk (fuel : nat) (chunks : list (Z * Z)) (nr size : Z) : list (Z * Z) :=
   match fuel with
   | O => []
   | S k => if nr <? size
            then match chunk_for chunks nr with
-                | Some (co, cz) => (co, cz) :: cache_walk k chunks (nr + cz) size
+                | Some (co, cz) => (co, cz) :: cache_walk k chunks (co + cz) size
                 | None => []
                 end
            else []
